@@ -324,16 +324,18 @@ theorem touches_postOps (t : Task) (fs : Fs) (w : Writes) :
   · split at h
     · simp only [List.mem_cons, List.not_mem_nil, or_false] at h; subst h
       simp only [touches, List.mem_cons, List.not_mem_nil, or_false] at hq; exact Or.inr hq
-    · split at h
-      · simp at h
-      · simp only [List.mem_cons, List.not_mem_nil, or_false] at h
-        rcases h with h | h <;> subst h
-        · simp only [touches, List.mem_cons, List.not_mem_nil, or_false] at hq; exact Or.inl hq
-        · simp only [touches, List.mem_cons, List.not_mem_nil, or_false] at hq
-          rcases hq with hq | hq
-          · exact Or.inr hq
-          · exact Or.inl hq
+    · simp only [List.mem_cons, List.not_mem_nil, or_false] at h
+      rcases h with h | h <;> subst h
+      · simp only [touches, List.mem_cons, List.not_mem_nil, or_false] at hq; exact Or.inl hq
+      · simp only [touches, List.mem_cons, List.not_mem_nil, or_false] at hq
+        rcases hq with hq | hq
+        · exact Or.inr hq
+        · exact Or.inl hq
   · simp at h
+
+/-- without the rename there is no clean-up -/
+theorem postOps_not_renamed (t : Task) (fs : Fs) (w : Writes) (h : renamed t fs = false) :
+    postOps t fs w = [] := by simp [postOps, h]
 
 theorem touches_tailOps (cfg : Cfg) (w : Writes) (t : Task) (fs : Fs) :
     ∀ op ∈ tailOps cfg w t fs, ∀ q ∈ touches op, q = t.dst ∨ q = bak t.dst := by
@@ -360,6 +362,25 @@ theorem touches_minifyOps (cfg : Cfg) (w : Writes) (t : Task) (fs : Fs) :
     · exact touches_preOps _ _ _ h _ hq
     · exact Or.inl (touches_midOps _ _ _ _ h _ hq)
     · exact touches_tailOps _ _ _ _ _ h _ hq
+
+/-- … and `dst.bak` only when the destination was renamed to it -/
+theorem touches_minifyOps_strict (cfg : Cfg) (w : Writes) (t : Task) (fs : Fs)
+    (hr : renamed t fs = false) :
+    ∀ op ∈ minifyOps cfg w t fs, ∀ q ∈ touches op, q = t.dst := by
+  intro op h q hq
+  simp only [minifyOps] at h
+  split at h
+  · simp at h
+  · simp only [List.mem_append] at h
+    rcases h with (h | h) | h
+    · simp [preOps, hr] at h
+    · exact touches_midOps _ _ _ _ h _ hq
+    · simp only [tailOps, postOps_not_renamed t fs w hr, List.nil_append] at h
+      split at h
+      · split at h
+        · rw [touches_attrOps _ _ _ _ _ h] at hq; simp at hq
+        · simp at h
+      · rw [touches_attrOps _ _ _ _ _ h] at hq; simp at hq
 
 end Verif.Proofs.CliFs
 
